@@ -1,4 +1,5 @@
 import Driver.C04
+import Driver.C11_Ctx
 import Driver.C19S
 import Driver.C03Names
 import Driver.C09P
@@ -49,6 +50,7 @@ partial def loop (h : IO.FS.Stream) (out : IO.FS.Stream) (f : String → String)
   loop h out f
 
 def modes : List (String × (String → String)) := [
+  ("c11ctx", C11Ctx.handle),
   ("c20c", C20.handleC),
   ("c19s", C19S.handle),
   ("c03fn", C03Names.handleFn),
